@@ -11,17 +11,20 @@ def Fits (a : Arch) : FieldKind → Operand → Prop
   | .reg, .reg k => k < 2 ^ a.r ∧ 1 ≤ a.r
   | .inp, .inp k => k < a.n ∧ k < 2 ^ a.inBits
   | .out, .out k => k < a.m ∧ k < 2 ^ a.outBits
+  | .so kind short, .so s k => s = short ∧ k < a.sharedNum kind ∧ k < 2 ^ a.sharedBits kind
+  | .so _ _, .num _ => False
   | f, .num n => n < 2 ^ a.width f ∧ 1 ≤ a.width f ∧ f ≠ .reg ∧ f ≠ .inp ∧ f ≠ .out
   | _, _ => False
 
 /-- what an encoded operand is: `encField` of the field's width and the operand's value -/
 def opVal : Operand → Nat
-  | .reg k => k | .inp k => k | .out k => k | .num n => n | .bad => 0
+  | .reg k => k | .inp k => k | .out k => k | .num n => n | .so _ k => k | .bad => 0
 
 theorem encOperand_eq {a : Arch} {f : FieldKind} {x : Operand} {b : Bits}
     (h : encOperand a f x = some b) : b = encField (a.width f) (opVal x) ∧ decOperand f (opVal x) = x := by
   cases f <;> cases x <;> simp [encOperand] at h <;>
     first
+    | (obtain ⟨⟨rfl, _⟩, rfl⟩ := h; exact ⟨rfl, rfl⟩)
     | (obtain ⟨_, rfl⟩ := h; exact ⟨rfl, rfl⟩)
     | (subst h; exact ⟨rfl, rfl⟩)
 
